@@ -72,6 +72,7 @@ def run(tier):
         sout = os.path.join(d, "sessions.out%d.ndjson" % k)
         with open(os.devnull, "w") as devnull:
             p = subprocess.run([C.TSGV, "session", C.CORPUS_PY, sin, sout], stdout=subprocess.PIPE, stderr=devnull, text=True, timeout=3000)
+        C.killed_from_outside(p.returncode)
         if p.returncode != 0:
             V.violation("session-process-%d" % k, {"property": PROP, "detail": "the session process died with status %d" % p.returncode}, {"observed": "abort"})
             return V.finish("model_checking", {"states": 1, "transitions": 1, "traces_validated_against_impl": 0, "samples": sessions[:1]}, [])
